@@ -345,12 +345,21 @@ class TFLiteSemantic:
         return valid, ", ".join(extra)
 
     @staticmethod
+    def _quantized_operands(op):
+        # ifm, ifm2, weights and ofm - plus every further input of operators that take a list of feature maps and every
+        # further output of operators that produce several
+        tensors = list(op.get_ifm_ifm2_weights_ofm())
+        if op.type in (Op.Concat, Op.ConcatTFLite, Op.Pack):
+            tensors += [tens for tens in op.inputs if tens not in tensors]
+        tensors += op.outputs[1:]
+        return [tens for tens in tensors if tens]
+
+    @staticmethod
     def constraint_tens_quant_none_check(op):
         "Input(s), Output and Weight tensors must have quantization parameters"
         valid = True
         extra = []
-        # operators with several outputs (SPLIT, SPLIT_V, UNPACK): every output counts
-        tensors = [tens for tens in list(op.get_ifm_ifm2_weights_ofm()) + op.outputs[1:] if tens]
+        tensors = TFLiteSemantic._quantized_operands(op)
         for tens in tensors:
             # a scale without a zero point (or vice versa) is an incomplete set of quantization parameters
             if tens.quantization is None or (tens.quantization.scale_f32 is None) != (tens.quantization.zero_point is None):
@@ -364,7 +373,7 @@ class TFLiteSemantic:
         "Input(s), Output and Weight tensors with quantization scales must be finite"
         valid = True
         extra = []
-        tensors = [tens for tens in list(op.get_ifm_ifm2_weights_ofm()) + op.outputs[1:] if tens]
+        tensors = TFLiteSemantic._quantized_operands(op)
         for tens in tensors:
             if (
                 tens.quantization
@@ -430,7 +439,7 @@ class TFLiteSemantic:
     @staticmethod
     def constraint_quant_scale_inf(op):
         "Input and Output tensors must have quantization scales that fit within float32 precision"
-        for tens in (op.ifm, op.ifm2, op.weights):
+        for tens in [tens for tens in TFLiteSemantic._quantized_operands(op) if tens not in op.outputs]:
             # zero, negative and denormal scales of the inputs are as unusable as those of the output
             if tens is not None and tens.is_quantized() and tens.quantization.scale_f32 is not None:
                 if np.any(tens.quantization.scale_f32 < np.finfo(np.float32).tiny):
